@@ -17,11 +17,13 @@ import (
 	"sync/atomic"
 	"time"
 
+	"github.com/anacrolix/dht/v2"
 	k_nearest_nodes "github.com/anacrolix/dht/v2/k-nearest-nodes"
 	"github.com/anacrolix/dht/v2/krpc"
 	"github.com/anacrolix/dht/v2/traversal"
 	"github.com/anacrolix/dht/v2/types"
 	"github.com/anacrolix/generics"
+	"github.com/anacrolix/log"
 
 	"github.com/anacrolix/dht/v2/int160"
 	"verifharness/sim"
@@ -54,6 +56,7 @@ type lookup struct {
 	net     map[string]nodeBehaviour
 	bad     map[string]bool
 	badp    map[cand]bool
+	srvbad  map[string]bool // addresses only the Server's own lookup filter stands between the lookup and a query
 	tr      *sim.Trace
 	seg     int
 	mu      sync.Mutex
@@ -150,6 +153,45 @@ func (lk *lookup) nodeInfo(c cand) krpc.NodeInfo {
 }
 
 func (lk *lookup) nodeOK(c cand) bool { return !lk.bad[c.Addr] && !lk.badp[c] }
+
+// The filter every built-in lookup of the Server uses (port 0, 0.0.0.0/8, blocklist; BEP 42 is off here):
+// in a third of the adversarial lookups the addresses it must reject are left to it alone.
+var (
+	filterSrv     *dht.Server
+	filterSrvOnce sync.Once
+)
+
+const blockedIP = "10.9.9.9"
+
+func serverFilter(a types.AddrMaybeId) bool {
+	filterSrvOnce.Do(func() {
+		cfg := dht.NewDefaultServerConfig()
+		cfg.Conn = sim.NewConn("45.9.9.9:4000")
+		cfg.NoSecurity = true
+		cfg.StartingNodes = func() ([]dht.Addr, error) { return nil, nil }
+		cfg.Logger = log.Default.FilterLevel(log.Critical)
+		bl := sim.BlockSet{}
+		bl.Add(netip.MustParseAddr(blockedIP).AsSlice())
+		cfg.IPBlocklist = bl
+		srv, err := dht.NewServer(cfg)
+		if err != nil {
+			panic(err)
+		}
+		filterSrv = srv
+	})
+	return filterSrv.TraversalNodeFilter(a)
+}
+
+func (lk *lookup) filter(a types.AddrMaybeId) bool {
+	c := lk.candOf(a)
+	if lk.srvbad[c.Addr] {
+		return serverFilter(a) && !lk.badp[c]
+	}
+	if len(lk.srvbad) != 0 && !serverFilter(a) {
+		return false
+	}
+	return lk.nodeOK(c)
+}
 
 func (lk *lookup) sink(op *traversal.Operation, ev traversal.VerifEvent) {
 	m := sim.M{"e": ev.Kind, "seg": lk.seg}
@@ -274,7 +316,7 @@ func genLookup(rng *rand.Rand, seg int, tr *sim.Trace, big bool) *lookup {
 	w := 3 + rng.Intn(4)
 	lk := &lookup{
 		emb: sim.NewEmbedding(rng, w), seg: seg, tr: tr,
-		net: map[string]nodeBehaviour{}, bad: map[string]bool{}, badp: map[cand]bool{},
+		net: map[string]nodeBehaviour{}, bad: map[string]bool{}, badp: map[cand]bool{}, srvbad: map[string]bool{},
 		counts: map[string]int{}, enter: make(chan *held, 64), exit: make(chan struct{}),
 		forms:  rand.New(rand.NewSource(rng.Int63())),
 		atGate: make(chan struct{}, 1), gateRelease: make(chan struct{}),
@@ -307,6 +349,15 @@ func genLookup(rng *rand.Rand, seg int, tr *sim.Trace, big bool) *lookup {
 			lk.addrs = append(lk.addrs, a)
 		}
 	}
+	honest := rng.Intn(4) == 0
+	if !honest && rng.Intn(3) == 0 {
+		for _, a := range []string{"10.0.0.7:0", "0.1.2.3:6881", blockedIP + ":6881", "[2001:db8::9]:0"} {
+			if rng.Intn(2) == 0 {
+				lk.srvbad[a], lk.bad[a] = true, true
+				lk.addrs = append([]string{a}, lk.addrs...)
+			}
+		}
+	}
 	live := lk.addrs
 	if len(live) > 2 {
 		live = live[:len(live)-1] // the last address is only ever mentioned, nobody is there
@@ -318,7 +369,6 @@ func genLookup(rng *rand.Rand, seg int, tr *sim.Trace, big bool) *lookup {
 			ids[a] = ids[lk.addrs[0]]
 		}
 	}
-	honest := rng.Intn(4) == 0
 	for _, a := range live {
 		b := nodeBehaviour{id: ids[a]}
 		if !honest {
@@ -397,7 +447,7 @@ func (lk *lookup) run(rng *rand.Rand, seed int64, idx int, concurrent bool) (err
 	}
 	op := traversal.Start(traversal.OperationInput{
 		Target: lk.emb.Conc(lk.target), K: lk.k, Alpha: lk.alpha, DoQuery: lk.doQuery,
-		NodeFilter: func(a types.AddrMaybeId) bool { return lk.nodeOK(lk.candOf(a)) },
+		NodeFilter: lk.filter,
 		DataFilter: func(d any) bool { _, ok := d.(string); return ok },
 	})
 	randCands := func(n int) (r []types.AddrMaybeId) {
